@@ -157,6 +157,50 @@ func (g *sgen) tree(n int, authPct int, parents []int) *privTree {
 	return t
 }
 
+// addTwin gives one leaf of the tree a sibling with the very same prompt and prompt pattern
+// (as e.g. the configuration / exclusive-configuration levels of real platforms): only the level
+// the driver remembers having acquired tells the two apart. Returns the names of the two levels
+// ("" if the tree has no suitable leaf).
+func (g *sgen) addTwin(t *privTree) (string, string) {
+	var leaves []string
+	for _, ps := range t.Specs {
+		leaf := ps.Previous != "" && ps.Name != "configuration"
+		for _, o := range t.Specs {
+			if o.Previous == ps.Name {
+				leaf = false
+			}
+		}
+		if leaf {
+			leaves = append(leaves, ps.Name)
+		}
+	}
+	if len(leaves) == 0 {
+		return "", ""
+	}
+	l := leaves[g.r.IntN(len(leaves))]
+	var ls PrivSpec
+	for _, ps := range t.Specs {
+		if ps.Name == l {
+			ls = ps
+		}
+	}
+	tw := PrivSpec{Name: "twin-of-" + l, Pattern: ls.Pattern, Previous: ls.Previous}
+	tw.Escalate = g.cmd(pick(g.r, "configure exclusive", "edit private", "enable"))
+	tw.Deescalate = g.cmd(pick(g.r, "exit", "end", "quit"))
+	t.Specs = append(t.Specs, tw)
+	t.Names = append(t.Names, tw.Name)
+	t.Prompt[tw.Name] = t.Prompt[l]
+	t.Parent[tw.Name] = tw.Previous
+	m := &peer.Mode{Name: tw.Name, Prompt: t.Prompt[l], Cmds: map[string]*peer.Reply{}}
+	m.Default = &peer.Reply{Out: []peer.Tok{{S: "% Invalid input at " + tw.Name}}}
+	m.Cmds[tw.Deescalate] = &peer.Reply{Next: tw.Previous}
+	t.Modes = append(t.Modes, m)
+	t.ByName[tw.Name] = m
+	t.ByName[tw.Previous].Cmds[tw.Escalate] = &peer.Reply{Next: tw.Name}
+
+	return l, tw.Name
+}
+
 // path returns the tree path from a to b (inclusive).
 func (t *privTree) path(a, b string) []string {
 	up := func(x string) []string {
